@@ -25,8 +25,12 @@ def make_cfg(rng):
     ms_choices = [m for m in (10, 20, 30, 50, 100, 250, 1000, 1, 5) if (m * freq) % 1000 == 0]
     hb0 = rng.choice([0] + ms_choices)
     cfg = Config(nodeid=nid, freq=freq, tmrnum=16)
-    gen.add_mandatory(cfg, hb=hb0, sync_id=0x80, sync_cycle=0, emcy_id=0x80, ssdo=1, ssdo_rw=False)
-    gen.add_hbcons(cfg, [(9, rng.choice([0, 40, 100]))])
+    # optional objects (1005h/1006h, 1016h, 1014h) are missing in some dictionaries
+    lean = rng.random() < 0.3
+    gen.add_mandatory(cfg, hb=hb0, sync_id=0x80, sync_cycle=0 if not (lean and rng.random() < 0.7) else None, emcy_id=0x80, ssdo=1, ssdo_rw=False,
+                      with1005=not (lean and rng.random() < 0.7), with1014=not (lean and rng.random() < 0.5))
+    if not (lean and rng.random() < 0.7):
+        gen.add_hbcons(cfg, [(9, rng.choice([0, 40, 100]))])
     cfg.add(var(0x2001, 0, RW | P | A, 1, 1))
     cfg.add(var(0x2001, 1, RW | P | A, 2, 2))
     gen.add_tpdo(cfg, 0, 0x40000180, 254, rng.choice([0, 100, 500]), rng.choice([0, 20, 100]), [gen.maplink(0x2001, 0, 8)])
